@@ -19,6 +19,7 @@
 -/
 import TypedpyModel.Lemmas.MappersRegion
 import TypedpyModel.Lemmas.MappersCache
+import TypedpyModel.Sem.MapperMro
 namespace Typedpy.C07
 open Typedpy.Mappers
 
@@ -244,15 +245,15 @@ theorem nested_step (S : StrFns) (camel : Bool) (m : MDict) (n : String) (opt : 
       simp [dNested, J.isNull, ser, this]
 
 theorem construct_noExtras (ca : Bool) (ex r : List (String × J)) (h : ex.isEmpty = true) :
-    construct ca ex r = .ok (.obj r) := by
-  simp [construct, h]
+    Mappers.construct ca ex r = .ok (.obj r) := by
+  simp [Mappers.construct, h]
 
 @[simp] theorem kuNext_false (camel : Bool) (d : List Mapper) : kuNext false camel d = false := by
   simp [kuNext]
 
 @[simp] theorem exFree_false (S : StrFns) (camel co : Bool) (names : List String) (ms : MDict)
     (kvs : List (String × J)) : exFree S camel false co names ms kvs = true := by
-  simp [exFree, extrasOf]
+  simp [exFree, Mappers.extrasOf]
 
 mutual
 /-- the deserializer, walking any suffix `fs` of the class's fields over the serialization of the whole
@@ -351,6 +352,72 @@ theorem mapper_round_trip_serialize (S : StrFns) (camel : Bool) (c : Cls) (ov : 
     deser S camel c ov strict (serialize S camel c ov x) = .ok x :=
   mapper_round_trip S camel c _ ov strict x h
 
+/-! ### classes that forbid additional properties, and `Deserializer`'s default -/
+
+theorem exFree_closed (S : StrFns) (camel ku : Bool) (names : List String) (ms : MDict)
+    (kvs : List (String × J)) : exFree S camel ku true names ms kvs = true := by
+  simp [exFree, Mappers.extrasOf]
+
+mutual
+theorem rtFields_closed (S : StrFns) (camel : Bool) (lv : LevelPred) :
+    ∀ (fs : List Fld) (ku : Bool) (ms M : MDict) (kvs : List (String × J)), closedFs fs = true →
+      rtFields S camel ku lv ms M fs kvs = rtFields S camel false lv ms M fs kvs
+  | [], _, _, _, _, _ => by simp [rtFields]
+  | f :: fs, ku, ms, M, kvs, h => by
+    simp only [closedFs, and_true_iff'] at h
+    cases kvs with
+    | nil => simp [rtFields]
+    | cons p rest =>
+      simp only [rtFields, rtFld_closed S camel lv f ku ms M p h.1,
+        rtFields_closed S camel lv fs ku ms M rest h.2]
+theorem rtFld_closed (S : StrFns) (camel : Bool) (lv : LevelPred) :
+    ∀ (f : Fld) (ku : Bool) (ms M : MDict) (p : String × J), closedF f = true →
+      rtFld S camel ku lv ms M f p = rtFld S camel false lv ms M f p
+  | .scalar n o, _, _, _, _, _ => by simp [rtFld]
+  | .nested n o sh ci fs, ku, ms, M, p, h => by
+    simp only [closedF, and_true_iff'] at h
+    simp only [rtFld, h.1, exFree_closed, kuNext_false, Bool.true_and]
+    congr 2
+    funext y
+    cases y with
+    | obj kvs =>
+      simp only [rtObj]
+      rw [rtFields_closed S camel lv fs (kuNext ku camel ci.desL) _ _ kvs h.2]
+    | null => rfl
+    | int i => rfl
+    | str s => rfl
+    | arr xs => rfl
+end
+
+/-- **Closed trees.**  If the class and every class nested in it forbid additional properties (in their
+    own bodies or — since /repo 0225533 — by inheritance), no serialized key is ever kept as an undefined attribute: the hypotheses of the
+    round trip do not depend on `keep_undefined`, and `deserialize(serialize x) = x` for every
+    `keep_undefined` under the level hypotheses alone. -/
+theorem closed_tree_round_trip (S : StrFns) (camel ku : Bool) (c : Cls) (ms : MDict) (ov : Option MDict)
+    (strict : Bool) (x : J) (hc : c.closedAny = true) (hcl : closedFs c.fields = true)
+    (h : rtCls S camel (levelOK S) c ms ov strict x = true) :
+    deserK S camel ku c ov strict (ser S camel ms x) = .ok x := by
+  apply mapper_round_trip_K
+  cases x with
+  | obj kvs =>
+    simp only [rtCls, rtClsK, and_true_iff', hc, exFree_closed, kuNext_false] at h ⊢
+    refine ⟨⟨h.1.1, trivial⟩, ?_⟩
+    rw [rtFields_closed S camel _ c.fields _ _ _ kvs hcl]
+    exact h.2
+  | null => simp [rtCls, rtClsK] at h
+  | int i => simp [rtCls, rtClsK] at h
+  | str s => simp [rtCls, rtClsK] at h
+  | arr xs => simp [rtCls, rtClsK] at h
+
+/-- `Deserializer(cls).deserialize` passes `keep_undefined = False` by default for every class (since
+    /repo 005d815): with the default nothing is ever kept as an undefined attribute, whatever the classes
+    of the tree say — `rtClsK false` is `rtCls`, so `mapper_round_trip` has no `exFree` hypothesis -/
+theorem deserializer_default_keeps_nothing (S : StrFns) (camel : Bool) (c : Cls) (ms : MDict)
+    (ov : Option MDict) (strict : Bool) (x : J) (lv : LevelPred) :
+    rtClsK S camel false lv c ms ov strict x = rtCls S camel lv c ms ov strict x
+    ∧ deserK S camel false c ov strict (ser S camel ms x) = deser S camel c ov strict (ser S camel ms x) :=
+  ⟨rfl, rfl⟩
+
 /-- **No fallback capture.**  Under the level hypotheses an absent field reads nothing from the
     serialized level — neither under its key nor under its own name — with or without
     `use_strict_mapping` (before /repo f476845 this needed the extra hypothesis `NoFallbackCapture`). -/
@@ -367,7 +434,7 @@ theorem absent_field_not_captured (S : StrFns) (camel : Bool) (ms M : MDict) (st
 def C07_statement : Prop :=
   ∀ (S : StrFns) (camel : Bool) (c : Cls) (ov : Option MDict) (strict : Bool) (x : J),
     rtCls S camel (levelDom S) c (aggregate S true c.own c.fields ov camel) ov strict x = true →
-    deserK S camel c.closedAny c ov strict (serialize S camel c ov x) = .ok x
+    deser S camel c ov strict (serialize S camel c ov x) = .ok x
 
 /-! ### flat classes: everything but injectivity, NoDot and NoFallbackCapture is discharged -/
 
@@ -461,7 +528,7 @@ theorem ser_aggregate_pointwise_every_level (S : StrFns) (c : Cls) (ov : Option 
 theorem region_desL (S : StrFns) (c : Cls) (ov : Option MDict) (camel : Bool)
     (h : regionOK S c ov camel = true) : c.desL = c.own := by
   simp only [regionOK, and_true_iff'] at h
-  have := h.1.1.1.1.1
+  have := h.1.1.1.1
   unfold Cls.desL
   cases hd : c.des with
   | none => rfl
@@ -473,21 +540,25 @@ theorem deser_aggregate_shape (S : StrFns) (c : Cls) (ov : Option MDict) (camel 
     aggregate S false c.desL c.fields ov camel = shapeFields S (effList c.own ov camel) c.fields := by
   rw [region_desL S c ov camel h]
   simp only [regionOK, and_true_iff'] at h
-  exact c07_foldAdd_base S c.fields _ h.1.1.1.2 h.1.1.2
+  exact c07_foldAdd_base S c.fields _ h.1.1.2
 
 /-- `_convert_to_camelcase` is idempotent on the driver's ASCII strings (its result has no underscore) -/
 theorem camel_idempotent_ascii (s : String) : asciiFns.camel (asciiFns.camel s) = asciiFns.camel s :=
   c07_camelAscii_idem s
 
 /-- **`Sync` is a theorem inside the region.**  `regionOK` is a decidable predicate on the class tree,
-    its mapper lists and the `camel_case_convert` flag alone: plain mappers (enum mappers, dicts of
-    string / `DoNotSerialize` values without `"<field>._mapper"` entries) on the top class and on the
-    classes nested directly in it, no own mapper on classes nested deeper, every nested field mapped
-    to a string key under which its re-keyed nested entry is found, and no two re-keyed nested entries
-    colliding in any round.  There the level hypotheses `levelOK` (with `Sync`) follow at *every* depth
-    from the demanded domain.  With `camel_case_convert` the deserializer applies `TO_CAMELCASE` once
-    more at every level; this is harmless because the conversion is idempotent (`hc`, proved for the
-    ASCII functions in `camel_idempotent_ascii`). -/
+    its mapper lists and the `camel_case_convert` flag alone.  It asks, for the top class and every
+    nested class at any depth: (1) in every aggregation round no two entries collide (nested entries
+    are re-keyed by the mapped name) and every nested entry is stepped by the deserializer with the
+    sub-mapper the serializer uses (`prefixOK`: always so for enum mappers and dicts without
+    `"<field>._mapper"` entries; for an explicit nested entry it means the entry is keyed by the name
+    the field has at that round and is not dict-equal to the current nested aggregate); (2) every nested
+    field is mapped to a string key under which its re-keyed nested entry is found (`trackOK`); (3) a
+    class two or more levels down has no own mapper, or nothing from above reaches it (`reaggOK`);
+    (4) no `_deserialization_mapper`.  There the level hypotheses `levelOK` (with `Sync`) follow at
+    *every* depth from the demanded domain.  With `camel_case_convert` the deserializer applies
+    `TO_CAMELCASE` once more at every level; this is harmless because the conversion is idempotent
+    (`hc`, proved for the ASCII functions in `camel_idempotent_ascii`). -/
 theorem sync_in_region (S : StrFns) (c : Cls) (ov : Option MDict) (camel ku strict : Bool) (x : J)
     (hc : camel = true → ∀ s, S.camel (S.camel s) = S.camel s)
     (hreg : regionOK S c ov camel = true)
@@ -496,14 +567,14 @@ theorem sync_in_region (S : StrFns) (c : Cls) (ov : Option MDict) (camel ku stri
   have hM := deser_aggregate_shape S c ov camel hreg
   have hdl := region_desL S c ov camel hreg
   simp only [regionOK, and_true_iff'] at hreg
-  obtain ⟨⟨⟨⟨⟨_, hw⟩, hplain⟩, _⟩, hnod⟩, hnested⟩ := hreg
+  obtain ⟨⟨⟨⟨_, hw⟩, _⟩, hnod⟩, hnested⟩ := hreg
   cases x with
   | obj kvs =>
     simp only [rtClsK, and_true_iff'] at h ⊢
     refine ⟨⟨c07_level_of_lookups S _ _ strict kvs h.1.1
       (fun p _ => by rw [hdl]; exact (ser_deser_same_field_keys S c.own c.fields ov camel p.1).symm), h.1.2⟩, ?_⟩
     rw [hM] at h ⊢
-    exact c07_sync_fields S camel hc c.fields c.fields _ _ _ _ kvs (c07_camelRel_top camel c.own ov) hplain hnod
+    exact c07_sync_fields S camel hc c.fields c.fields _ _ _ _ kvs (c07_camelRel_top camel c.own ov) hnod
       (c07_aggregate_agrees S c.own c.fields ov camel hw) (fun g hg => hg) hnested h.2
   | null => simp [rtClsK] at h
   | int i => simp [rtClsK] at h
@@ -633,9 +704,7 @@ theorem C07_statement_false : ¬ C07_statement := by
   have h1 := nested_resync_counterexample
   have h2 := h upFns false topCls none false topInst h1.1
   have h3 := h1.2
-  have e : deserK upFns false topCls.closedAny topCls none false (serialize upFns false topCls none topInst)
-      = deser upFns false topCls none false (serialize upFns false topCls none topInst) := rfl
-  rw [← e, h2] at h3
+  rw [h2] at h3
   revert h3
   decide
 
@@ -694,16 +763,21 @@ def kuO : Cls :=
     fields := [.nested "n" false .one { ser := [.dict [(.fld "q", .key "k")]] } kuN, .scalar "z" false] }
 def kuInst : J := .obj [("n", .obj [("q", .int 1)]), ("z", .int 2)]
 
-/-- finding `keep-undefined-leak`: `Deserializer(O).deserialize` turns `keep_undefined` on because `O` is
-    closed; `O` itself drops undefined keys but hands the flag to the open nested class `N`, which keeps
-    its renamed key `k` as an extra attribute: the result is `O(n=N(q=1, k=1), z=2)`.  The instance is
-    inside the demanded domain and satisfies `Sync` at every level; only `exFree` fails. -/
-theorem keep_undefined_leak_counterexample :
-    rtCls idFns false (levelDom idFns) kuO (aggregate idFns true kuO.own kuO.fields none false) none false kuInst = true
-    ∧ rtCls idFns false (levelOK idFns) kuO (aggregate idFns true kuO.own kuO.fields none false) none false kuInst = true
-    ∧ rtClsK idFns false kuO.closedAny (levelOK idFns) kuO (aggregate idFns true kuO.own kuO.fields none false)
+/-- former finding `keep-undefined-leak` (fixed by /repo 005d815): `Deserializer(O).deserialize` used to
+    turn `keep_undefined` on because `O` is closed; `O` itself drops undefined keys but handed the flag to
+    the open nested class `N`, which kept its renamed key `k` as an extra attribute.  The default is now
+    `False` for every class: the instance satisfies the hypotheses of `mapper_round_trip` and round-trips.
+    (With an explicit `keep_undefined=True` the nested open class still keeps `k` — by design — and
+    `exFree` fails: last conjunct.) -/
+theorem keep_undefined_leak_fixed :
+    rtCls idFns false (levelOK idFns) kuO (aggregate idFns true kuO.own kuO.fields none false) none false kuInst = true
+    ∧ isOkEq (deser idFns false kuO none false (serialize idFns false kuO none kuInst))
+        (fun y => match y with
+          | .obj [("n", .obj [("q", .int 1)]), ("z", .int 2)] => true
+          | _ => false) = true
+    ∧ rtClsK idFns false true (levelOK idFns) kuO (aggregate idFns true kuO.own kuO.fields none false)
         none false kuInst = false
-    ∧ isOkEq (deserK idFns false kuO.closedAny kuO none false (serialize idFns false kuO none kuInst))
+    ∧ isOkEq (deserK idFns false true kuO none false (serialize idFns false kuO none kuInst))
         (fun y => match y with
           | .obj [("n", .obj [("q", .int 1), ("k", .int 1)]), ("z", .int 2)] => true
           | _ => false) = true := by
@@ -715,14 +789,16 @@ def kuC : Cls :=
   { own := [.dict [(.fld "q", .key "k")]], closedOwn := false, closedAny := true,
     fields := [.scalar "q" false, .scalar "z" false] }
 
-/-- finding `inherited-closed-class-rejects-mapped-key`: the subclass's own `__dict__` does not forbid
-    additional properties, so the renamed key `k` is passed to the constructor as an undefined key, and
-    the constructor (which honours the inherited flag) refuses it. -/
-theorem inherited_closed_counterexample :
-    rtCls idFns false (levelOK idFns) kuC (aggregate idFns true kuC.own kuC.fields none false) none false
+/-- former finding `inherited-closed-class-rejects-mapped-key` (fixed by /repo 0225533): the subclass's
+    own `__dict__` does not forbid additional properties, so the renamed key `k` used to be passed to the
+    constructor as an undefined key and refused.  The inherited flag now decides: nothing is passed, and
+    the instance round-trips even with `keep_undefined` on. -/
+theorem inherited_closed_fixed :
+    rtClsK idFns false true (levelOK idFns) kuC (aggregate idFns true kuC.own kuC.fields none false) none false
         (.obj [("q", .int 1), ("z", .int 2)]) = true
-    ∧ isErr (deserK idFns false kuC.closedAny kuC none false
-        (serialize idFns false kuC none (.obj [("q", .int 1), ("z", .int 2)]))) = true := by
+    ∧ isOkEq (deserK idFns false true kuC none false
+        (serialize idFns false kuC none (.obj [("q", .int 1), ("z", .int 2)])))
+        (fun y => match y with | .obj [("q", .int 1), ("z", .int 2)] => true | _ => false) = true := by
   decide
 
 /-- a tree in which *every* class forbids additional properties in its own body round-trips whatever
@@ -771,6 +847,44 @@ theorem region_all_dict_example :
         (fun d => match d with
           | .obj [("mm", .obj [("gg", .obj [("z", .int 1)]), ("y", .int 3)])] => true
           | _ => false) = true := by
+  decide
+
+/-! ### several bases: the order of collection -/
+
+def mTag : Mapper → String
+  | .lower => "L"
+  | .camel => "C"
+  | .dict _ => "D"
+
+/-- `class A: _serialization_mapper = TO_LOWERCASE`, `class B(A)`, `class C(A): … = TO_CAMELCASE`,
+    `class D(B, C): … = {}` -/
+def diamond : List ClsNode :=
+  [{ name := "A", bases := [], ser := some (.single .lower) },
+   { name := "B", bases := ["A"] },
+   { name := "C", bases := ["A"], ser := some (.single .camel), closed := true },
+   { name := "D", bases := ["B", "C"], ser := some (.single (.dict [])) }]
+
+/-- the diamond: linearisation `D, B, C, A`; the mappers are collected along the *reversed* linearisation
+    with `getattr` per class, so `B` (which defines nothing) contributes `A`'s mapper a second time, after
+    `C`'s; `D` forbids additional properties by inheritance from `C` only; and a plain chain collects
+    exactly what the single-inheritance `collect` does -/
+theorem mro_collection_example :
+    mroIn (mroTable diamond) "D" = ["D", "B", "C", "A"]
+    ∧ (cinfoOf diamond "D").ser.map mTag = ["L", "C", "L", "D"]
+    ∧ (cinfoOf diamond "D").closedAny = true ∧ (cinfoOf diamond "D").closedOwn = false
+    ∧ (cinfoOf diamond "D").des.isNone = true
+    ∧ (cinfoOf (chainGraph 0 [some (.single .lower), none, some (.many [.camel, .dict []])]) "c2").ser.map mTag
+        = (collect none [some (.single .lower), none, some (.many [.camel, .dict []])]).map mTag := by
+  decide
+
+/-- non-vacuity of the region with an explicit `"<field>._mapper"` entry: the class of `round_trip_example`
+    (a dict with the nested entry `"n._mapper": {"p": "q"}`, then TO_LOWERCASE; the nested class renames
+    `p` itself) is inside the region, with `camel_case_convert` off and on, and its instance inside the
+    demanded domain — so `mapper_round_trip_region` applies without any `Sync` hypothesis -/
+theorem region_nested_entry_example :
+    regionOK upFns rtCls2 none false = true ∧ regionOK upFns rtCls2 none true = true
+    ∧ rtCls upFns false (levelDomE upFns) rtCls2 (aggregate upFns true rtCls2.own rtCls2.fields none false)
+        none false rtInst2 = true := by
   decide
 
 end Typedpy.C07
